@@ -258,6 +258,31 @@ UNITS += [
 """),
 ]
 
+INI = "crates/core/src/commands/init.rs"
+UNITS += [
+    Unit(name="init_validates_first", file=INI, anchor="pub(crate) fn init<S>(", ret_name="r",
+         functions=["commands::init::init"],
+         rewrites=[
+             Rw("fn init<S>(", "fn init(", sig=True, why="repository state generic dropped"),
+             Rw("repo: &Repository<S>,", "repo: &VInitRepo,", sig=True, why="repository -> stub"),
+             Rw("credentials: &Credentials,", "credentials: &CredentialsR,", sig=True, why="credentials -> opaque"),
+             Rw("key_opts: &KeyOptions,", "key_opts: &KeyOptionsR,", sig=True, why="key options -> opaque"),
+             Rw("RusticResult<(Key, Option<KeyId>, ConfigFile)>", "RusticResult<(KeyR, Option<KeyIdR>, ConfigFile)>", sig=True, why="key types -> opaque"),
+             Rw("RepositoryId::from(Id::random())", "vrandom_repo_id()", why="random repository id"),
+             Rw("random_poly()?", "vrandom_poly()?", why="random irreducible polynomial (C06: shape only)"),
+             Rw("ConfigFile::new(2, repo_id, chunker_poly)", "vconfigfile_new(2, repo_id, chunker_poly)", why="ConfigFile::new -> stub: a fresh configuration"),
+             Rw("repo.be_hot.is_some()", "repo.vhas_hot()", why="hot store present?"),
+             Rw("config_opts.apply(&mut config)?;", "vapply(config_opts, &mut config)?;", why="ConfigOptions::apply seen through its contract (unit `apply`): Ok only for an accepted configuration"),
+             Rw("init_with_config(repo, credentials, key_opts, &config)?", "vinit_with_config(repo, credentials, key_opts, &config)?", why="init_with_config (creates the repository) -> effectful stub: PRECONDITION 'configuration accepted'"),
+         ],
+         contract="""
+    ensures
+        // a repository comes into being only with a configuration that ConfigOptions::apply accepted (refused options create nothing:
+        // precondition of vinit_with_config), and the configuration handed back is that one
+        /*@initialised_config_is_an_accepted_one*/ r matches Ok(x) ==> accepted(x.2),
+"""),
+]
+
 CH = "crates/core/src/chunker.rs"
 UNITS += [
     Unit(name="ChunkIterEnum", file=CH, kind="type", anchor="pub(crate) enum ChunkIter<R: Read + Send> {",
@@ -283,6 +308,6 @@ UNITS += [
 KANI = []
 META = {"not_covered": [
     "the end-to-end statement 'backup, check and restore succeed on every accepted configuration' (composition)",
-    "init (ConfigFile::new + apply + key creation), save_config / save_config_hot, zstd level semantics",
+    "init_with_config (key creation, save_config / save_config_hot: units of C16), ConfigFile::new, zstd level semantics; `init` itself IS a unit (nothing is created before the options were accepted)",
     "prune options other than the limit arithmetic (keep-pack/keep-delete spans: jiff)",
 ]}
